@@ -197,7 +197,7 @@ theorem cached_fields_agree (n : Dom.DN) (p o : Option Nat) (hok : Dom.OK p o n)
 
 example : Dom.ids sampleDom = [0, 1, 2] ∧ Dom.desc sampleDom = [1, 2]
     ∧ (Dom.elems sampleDom).map (fun e => e.1.parent) = [none, some 0, some 0] := by
-  simp [sampleDom, sampleFN, Dom.mk, Dom.mkL, Dom.ids, Dom.idsL, Dom.desc, Dom.descL, Dom.elems, Dom.elemsL]
+  simp [sampleDom, sampleFN, Dom.mk, Dom.mkL, Dom.ids, Dom.idsL, Dom.desc, Dom.elems, Dom.elemsL]
 
 /-! ### the XPath model's table -/
 
